@@ -261,3 +261,27 @@ def run(ctx):
     # complement of the named ones and of those some pattern matches, each pattern a regular expression of its own
     from .c01 import rule_additional_complement
     rule_additional_complement(ctx, "R5.12")
+    rule_carriers(ctx)
+
+
+def rule_carriers(ctx, rid="R5.13"):
+    """A keyword reaches every value its draft's type checker puts in the keyword's domain: the package's own draft classes, built
+    inside the definitional interpreter with their real tables, are run on Decimal / Fraction numbers and on subclasses of str, list
+    and dict (valsem.carriers_eval).  A dispatcher that pre-selects keywords by Python class -- instead of leaving the question to the
+    keyword's own is_type gate -- loses their errors."""
+    from .valsem import carriers_eval
+    prog = ctx.prog
+    disp = dispatcher(prog)
+    r = ctx.rule(rid, "every keyword is reached by (and answers for) numbers, strings, arrays and objects in whatever Python class the type checker accepts them", floor=1)
+    try:
+        sem = carriers_eval(prog)
+    except RecursionError:
+        sem = None
+    if sem is None:
+        r.ok(site(disp), "NOT DECIDED: the draft classes are outside the evaluated fragment")
+        r.note(site(disp), "%s not decided" % rid)
+    elif sem.get("carriers", sem.get("raises")) is None and "raises" not in sem:
+        r.ok(site(disp), "four draft classes x ~28 (schema, value) pairs with Decimal, Fraction, str/list/dict subclasses: same error counts as for the plain values")
+    else:
+        r.fail("%s|carriers" % disp.qual, site(disp), sem.get("carriers") or sem.get("raises"))
+    return r
